@@ -453,6 +453,30 @@ def parse_protos(path):
     return protos
 
 
+def parse_readme(path):
+    """doc/README.cxx: the '* <ret> [Class::]Method(params)' entries of the DIRFILE CLASS and FRAGMENT CLASS sections"""
+    txt = open(path, errors="replace").read()
+    out = []
+    for cls, head, stop in (("Dirfile", "DIRFILE CLASS", "FRAGMENT CLASS"), ("Fragment", "FRAGMENT CLASS", "ENTRY CLASS")):
+        a = txt.find("\n" + head + "\n")
+        b = txt.find("\n" + stop + "\n")
+        if a < 0 or b < 0:
+            continue
+        sec = txt[a:b]
+        for m in re.finditer(r"^\* ([^\n(]*?)\b(?:\w+::)?(~?\w+)\s*\(((?:[^()]|\([^()]*\))*)\)", sec, re.M | re.S):
+            ret, meth, ps = norm(m.group(1)), m.group(2), m.group(3)
+            if meth in ("Dirfile", "~Dirfile") or ret.startswith("~"):
+                continue
+            out.append((cls, meth, parse_params(ps), ret))
+    return out
+
+
+def parse_aliases(path):
+    """#define gd_x gd_x64 of getdata.h.in"""
+    s = open(path, errors="replace").read()
+    return sorted(set(re.findall(r"^#\s*define\s+(gd_\w+)\s+(gd_\w+64)\s*$", s, re.M)))
+
+
 def main():
     cxx = os.path.join(REPO, "bindings", "cxx")
     problems = []
@@ -514,6 +538,21 @@ def main():
         w.append("")
     emit("cxx_table", rows)
     emit("hdr_table", hrows)
+    try:
+        readme = parse_readme(os.path.join(REPO, "doc", "README.cxx"))
+        aliases = parse_aliases(os.path.join(REPO, "src", "getdata.h.in"))
+    except Exception as e:
+        readme, aliases = [], []
+        problems.append("PROBLEM README.cxx: %s" % e)
+    w.append("(* doc/README.cxx: documented signatures of the Dirfile and Fragment methods *)")
+    w.append("Definition readme_sigs : list (string * string * list (string * string)) := [")
+    w.append(";\n".join("  (%s, %s, [%s])" % (coq_str(c), coq_str(mm), "; ".join("(%s, %s)" % (coq_str(t), coq_str(n)) for t, n in ps))
+                        for c, mm, ps, _ in readme))
+    w.append("].")
+    w.append("")
+    w.append("(* src/getdata.h.in: large-file aliases  #define gd_x gd_x64 *)")
+    w.append("Definition c_aliases : list (string * string) := [%s]." % "; ".join("(%s, %s)" % (coq_str(a), coq_str(b)) for a, b in aliases))
+    w.append("")
     w.append("Definition c_protos : list proto := [")
     w.append(";\n".join("  mkProto %s %s [%s]" % (coq_str(n), coq_str(rt), "; ".join("(%s, %s)" % (coq_str(t), coq_str(pn)) for t, pn in ps))
                         for n, (rt, ps) in sorted(protos.items())))
